@@ -8,18 +8,25 @@ package slip
 
 // C05: NormalizeNumber returns its two arguments in one common numeric
 // representation; fixnum pairs are returned as they are.
+// a number that is a pointer to a mutable math/big value
+//@ define bigptr(x) = is(x, ptr(Bignum)) || is(x, ptr(Ratio)) || is(x, ptr(LongFloat))
 //@ func slip.NormalizeNumber
 //@   property C05
 //@   ensures same-type: tag(n0) == tag(n1)
 //@   ensures fix-fix: (is(v0, Fixnum) && is(v1, Fixnum)) ==> (n0 == v0 && n1 == v1)
 //@   ensures canary-swap: (is(v0, Fixnum) && is(v1, Fixnum)) ==> (n0 == v1)
+//@   ensures n0-given-or-new: bigptr(n0) ==> (n0 == v0 || fresh(n0))
+//@   ensures n1-given-or-new: bigptr(n1) ==> (n1 == v1 || fresh(n1))
 //@   loop v0: invariant fix-kept: is(old(v0), Fixnum) ==> v0 == old(v0)
+//@   loop v0: invariant given-or-new: bigptr(v0) ==> (v0 == old(v0) || fresh(v0))
 
 //@ func slip.(*SignedByte).AsFixOrBig
 //@   property C05
+//@   ensures new-big: is(result, ptr(Bignum)) ==> fresh(result)
 //@   ensures fix-or-big: is(result, Fixnum) || is(result, ptr(Bignum))
 //@ func slip.(*UnsignedByte).AsFixOrBig
 //@   property C05
+//@   ensures new-big: is(result, ptr(Bignum)) ==> fresh(result)
 //@   ensures fix-or-big: is(result, Fixnum) || is(result, ptr(Bignum))
 
 //@ func slip.DefLambda
